@@ -529,6 +529,29 @@ def c04(tier, seed):
                             k += 1
     return out
 
+def c04r(tier, seed):
+    """an opposite OpenPosition whose notional is just above the position's value: the reversal closes the
+    whole position and drops the remainder (< leverage): healthy, under-water and funding-laden victims"""
+    out = []
+    k = 0
+    for coll in ("cw20", "native"):
+        native = coll == "native"
+        for (toll, spread) in ((0, 0), (5, 10)):
+            for vside in ("buy", "sell"):
+                pside = "sell" if vside == "buy" else "buy"
+                for push in (0, 6000, 20000):
+                    # victim: 20.00 at 10x (notional 200.00); pusher at 1x moves the price against it
+                    for rm in range(1100, 2400, 45):
+                        ops = [block(15), opn("tr1", vside, 2000, 1000, funds=fee_funds(native, 2000, 1000, toll, spread))]
+                        if push:
+                            ops += [opn("tr2", pside, push, 100, funds=fee_funds(native, push, 100, toll, spread))]
+                        ops += [block(15), close("tr1"), block(15),
+                                opn("tr1", pside, rm, 1000, funds=fee_funds(native, rm, 1000, toll, spread) if native else 0),
+                                query("engine", "position", dict(vamm="vamm1", trader="tr1")), close("tr2")]
+                        out.append(dict(id="c04r-%d" % k, deploy=dep(coll, vamms=[dict(toll=toll, spread=spread)]), ops=ops))
+                        k += 1
+    return out
+
 def c04p(tier, seed):
     """funding settlement, partial close through the price band, second settlement, whole close"""
     out = []
@@ -615,7 +638,7 @@ def for_property(pid, tier, seed):
     if pid == "C10":
         return [("c10alias", c10(tier, seed)), ("c08sweeps", c08(tier, seed)), ("c16orderings", c16(tier, seed)), ("c07vault", c07(tier, seed))]
     if pid in ("C12", "C04"):
-        return [("c04partial", c04p(tier, seed)), ("c04funding", c04(tier, seed)), ("c08sweeps", c08(tier, seed)), ("c16orderings", c16(tier, seed)), ("c07vault", c07(tier, seed))]
+        return [("c04reverse", c04r(tier, seed)), ("c04partial", c04p(tier, seed)), ("c04funding", c04(tier, seed)), ("c08sweeps", c08(tier, seed)), ("c16orderings", c16(tier, seed)), ("c07vault", c07(tier, seed))]
     if pid == "C11":
         return [("c04partial", c04p(tier, seed)), ("c04funding", c04(tier, seed)), ("c06funding", c06f(tier, seed))]
     return []
